@@ -363,10 +363,84 @@ def search(ctx, boost=False):
                                                          text=text, tokens=exp, terms=terms, wrap=wrap)))
         if len(s.samples) < 3 and len(exp) > 5:
             s.samples.append(dict(position=name, input=tmpl.replace("@", " " + text + " "), expected_tokens=exp))
+    search_requires(ctx, s, boost)
     return s
 
 
+# requires-clauses in every position that takes one, in front of every ending
+REQ_POSITIONS = [
+    ("requires_header", "template <typename T> requires @ void f(T); int after;", lambda d: _v(d.namespace.functions[0].template.raw_requires_pre)),
+    ("requires_header_class", "template <typename T> requires @ struct S {}; int after;", lambda d: _v(d.namespace.classes[0].class_decl.template.raw_requires_pre)),
+    ("requires_fn_decl", "template <typename T> void f(T) requires @; int after;", lambda d: _v(d.namespace.functions[0].raw_requires)),
+    ("requires_fn_body", "template <typename T> void f(T) requires @ { return; } int after;", lambda d: _v(d.namespace.functions[0].raw_requires)),
+    ("requires_fn_delete", "template <typename T> void f(T) requires @ = delete; int after;", lambda d: _v(d.namespace.functions[0].raw_requires)),
+    ("requires_method_decl", "template <typename T> struct S { void m() const requires @; int f; }; int after;", lambda d: _v(d.namespace.classes[0].methods[0].raw_requires)),
+    ("requires_method_default", "template <typename T> struct S { S() requires @ = default; int f; }; int after;", lambda d: _v(d.namespace.classes[0].methods[0].raw_requires)),
+    ("requires_method_pure", "template <typename T> struct S { virtual void m() requires @ = 0; int f; }; int after;", lambda d: _v(d.namespace.classes[0].methods[0].raw_requires)),
+    ("requires_method_body", "template <typename T> struct S { void m() requires @ {} int f; }; int after;", lambda d: _v(d.namespace.classes[0].methods[0].raw_requires)),
+]
+
+
+def gen_requires_clause(rng):
+    """an unqualified clause (F29, the '::' inside names, has its own witness): primaries joined by && / || / comparison"""
+    def primary():
+        if rng.random() < 0.35:
+            return list(rng.choice(REQ_PARENS)), True
+        pc = list(rng.choice(REQ_PIECES))
+        return pc, pc[-1] == '>'
+    if rng.random() < 0.1:
+        return ['requires', '(', 'T', 't', ')', '{', 't', '.', 'x', ';', '}']
+    w, closed = primary()
+    for _ in range(rng.choice([0, 0, 1, 1, 2, 3])):
+        op = list(rng.choice(REQ_OPS[:8]))
+        while not closed and op[0] == '<':
+            op = list(rng.choice(REQ_OPS[:8]))
+        w2, closed = primary()
+        w += op + w2
+    return w
+
+
+def check_requires_position(name, tmpl, toks):
+    pos = [p for p in REQ_POSITIONS if p[0] == name][0]
+    text = tmpl.replace("@", " ".join(toks))
+    try:
+        d = impl.parse_string(text)
+    except impl.CxxParseError as e:
+        return "position %s: a legal requires-clause is rejected: %s" % (name, str(e)[:160])
+    try:
+        got = pos[2](d)
+    except Exception as ex:
+        return "position %s: declaration shape changed (%s: %s)" % (name, type(ex).__name__, ex)
+    if got != list(toks):
+        return "position %s: value tokens %r differ from the clause's tokens %r" % (name, got, list(toks))
+    if not after_ok(d):
+        return "position %s: the declaration after the clause is lost" % name
+    return None
+
+
+def search_requires(ctx, s, boost=False):
+    rng = ctx.rng
+    n = ctx.scale(600, 12000) * (4 if boost else 1)
+    s.rule += ("; requires-clauses (primaries: parenthesized expressions, specialized names, decltype; joined by && || == != <= >=; "
+               "requires-expressions) in %d positions (template header, function and method tails in front of ';', a body, `= delete`, "
+               "`= default`, `= 0`): the reported tokens are the clause's tokens and the following declaration is intact" % len(REQ_POSITIONS))
+    for i in range(n):
+        name, tmpl, _ = REQ_POSITIONS[i % len(REQ_POSITIONS)]
+        toks = gen_requires_clause(rng)
+        if name.startswith("requires_header") and toks[-1] not in (')', '>', '}'):
+            toks = toks + ['&&', '(', 'true', ')']     # a bare name in front of the declaration's type would read on into it
+        s.evaluations += 1
+        s.nontrivial.add((name, " ".join(toks)))
+        s.count(name)
+        msg = check_requires_position(name, tmpl, toks)
+        if msg:
+            s.violations.append(dict(what=msg, case=dict(kind="requires-position", position=name, template=tmpl, tokens=toks)))
+
+
 def replay(ctx, case):
+    if case.get("kind") == "requires-position":
+        m = check_requires_position(case["position"], case["template"], case["tokens"])
+        return [m] if m else []
     if case.get("kind") == "position":
         m = check_position(case["position"], case["template"], case["text"], case["tokens"], case.get("wrap"))
         return [m] if m else []
